@@ -263,6 +263,7 @@ func RunC03(c *Ctx) {
 			}
 		}
 	}
+	openThenBroken(c, &idx, func(entry, input string) { CheckC03(c, entry, input) })
 	// 4. mutants, splices, random bytes
 	n := 0
 	errorWorkload(c, c.Pick(300_000, 6_000_000), func(entry, input string) {
